@@ -129,3 +129,11 @@ Example C13_mixed_example :
   run_case 3 1 [[0;0;0;1;15;1;3;1];[0;1;1;1;7;1;2;1];[0;2;2;1;0;1;2;1];[1;0;3;1]]%Z
   = [[2;2;1];[1;53;10]]%Z.
 Proof. exact ex_mixed. Qed.
+
+(** (A) the tie to /repo's current source: every function this property's models were transcribed from has, in the
+    tree this run is checking, the normalised source it had when the models were validated (hashes regenerated from
+    /repo into gen/Generated.v on every run; pins in gen/SourcePins.v).  A change to one of them invalidates the
+    transcription until it is re-validated. *)
+From UsimGen Require SourcePins Pin_C13.
+Theorem C13_modelled_source_unchanged : forallb SourcePins.pin_ok Pin_C13.pins = true.
+Proof. exact Pin_C13.src_unchanged. Qed.
